@@ -1,2 +1,892 @@
-// Package c04: monitor for property C04 (see DESIGN.md section 2).
+// Package c04: reads reflect exactly the committed log (index agrees with history).
+//
+// One store configuration per isolated case: PRNG writers commit overwrites, logical deletes, fixed
+// expirations, non-indexable entries, empty values and many-key transactions against 1-4 indexes (default,
+// prefixed, mapped by harness functions, injective or not) while a maintenance goroutine flushes, compacts
+// and takes snapshots and the indexer is perturbed at its hook points. The ledger of acknowledged commits
+// is replayed into one kvmodel per index with the same mapper functions; at every quiescent point
+// (WaitForIndexingUpto(n) returned) all read paths are compared with the model, and reads issued while the
+// writers ran must equal the model at some instant between the tx they waited for and the committed frontier.
 package c04
+
+import (
+	"context"
+	"encoding/json"
+	"errors"
+	"fmt"
+	"math/rand/v2"
+	"os"
+	"runtime"
+	"sort"
+	"strings"
+	"sync"
+	"sync/atomic"
+	"time"
+
+	"github.com/codenotary/immudb/embedded/store"
+
+	"verifharness/internal/fw"
+	"verifharness/internal/hook"
+	"verifharness/internal/kvmodel"
+	"verifharness/internal/ledger"
+	"verifharness/internal/sth"
+)
+
+func init() { fw.RegisterMonitor("C04", "exploration", Run) }
+
+type caseSpec struct {
+	Name         string
+	Layout       int
+	Bulk         int
+	Adaptive     bool
+	FlushThld    int
+	SyncThld     int
+	NodeSize     int
+	CacheSize    int
+	MaxBuf       int
+	MaxGlobalBuf int
+	Writers      int
+	Rounds       int
+	TxsPerRound  int
+	MaxTxEntries int
+	MaxKeyLen    int
+	MaintBase    int
+	Compaction   bool // whether the case ever compacts (a compaction taints the rest of the case, see report())
+	Probes       int
+	Embedded     bool
+}
+
+func (cs caseSpec) String() string {
+	return fmt.Sprintf("%s layout=%d compaction=%v bulk=%d adaptive=%v flush=%d sync=%d node=%d cache=%d maxbuf=%d/%d writers=%d embedded=%v",
+		cs.Name, cs.Layout%4, cs.Compaction, cs.Bulk, cs.Adaptive, cs.FlushThld, cs.SyncThld, cs.NodeSize, cs.CacheSize, cs.MaxBuf, cs.MaxGlobalBuf, cs.Writers, cs.Embedded)
+}
+
+// every (layout, MaxBulkSize) pair; the first ten hold every bulk size and every layout at least twice,
+// and both injective layouts with bulk size 1
+var combos = [][2]int{
+	{0, 1}, {1, 2}, {2, 1}, {3, 8}, {0, 64}, {1, 3}, {2, 2}, {3, 1}, {0, 8}, {2, 64},
+	{1, 1}, {3, 2}, {0, 3}, {1, 8}, {3, 64}, {0, 2}, {2, 3}, {1, 64}, {2, 8}, {3, 3},
+}
+
+const (
+	maxKeyLen   = 40
+	maxValueLen = 128
+	// vLen + vOff + hVal + txmdLen + txmd(268) + kvmdLen + kvmd(11): the indexed value the store declares to the tree
+	idxValueLen = 4 + 8 + 32 + 2 + 268 + 2 + 11
+	minNodeSize = 31 + maxKeyLen + idxValueLen
+)
+
+func genCase(r *rand.Rand, i int) caseSpec {
+	cs := caseSpec{
+		Layout:       combos[i%len(combos)][0],
+		Bulk:         combos[i%len(combos)][1],
+		Adaptive:     r.IntN(2) == 0,
+		FlushThld:    []int{1, 3, 10, 50, 1000}[r.IntN(5)],
+		SyncThld:     []int{1, 5, 40, 1000}[r.IntN(4)],
+		NodeSize:     []int{minNodeSize, minNodeSize, minNodeSize + 150, 4096}[r.IntN(4)],
+		CacheSize:    1 + r.IntN(8),
+		MaxBuf:       []int{2500, 6000, 1 << 20}[r.IntN(3)], // never below what the largest tx needs (it could never be indexed)
+		Writers:      1 + r.IntN(8),
+		MaxTxEntries: 8,
+		MaxKeyLen:    maxKeyLen,
+		MaintBase:    r.IntN(5),
+		Compaction:   (i+i/20)%2 == 1,
+		Embedded:     r.IntN(4) == 0,
+	}
+	if cs.SyncThld < cs.FlushThld {
+		cs.SyncThld = cs.FlushThld // required by tbtree
+	}
+	// with bulk sizes above one several writers are needed for bulks to form at all
+	if cs.Bulk > 1 && cs.Writers < 3 {
+		cs.Writers += 3
+	}
+	cs.MaxGlobalBuf = cs.MaxBuf * []int{1, 2, 1000}[r.IntN(3)]
+	if nidx := len(layoutSpecs(cs.Layout)); cs.Compaction && nidx >= 3 {
+		// several indexers (and their flushes) queue behind the compaction lock whenever they stall on the
+		// global buffered-data limit: such cases only time out
+		cs.MaxGlobalBuf = cs.MaxBuf * 1000
+	}
+	if r.IntN(5) == 0 {
+		cs.CacheSize = 100
+	}
+	return cs
+}
+
+func (cs caseSpec) options() *store.Options {
+	multi, _ := layout(cs.Layout)
+	o := sth.SmallOpts().
+		WithMaxTxEntries(cs.MaxTxEntries).WithMaxKeyLen(cs.MaxKeyLen).WithMaxValueLen(maxValueLen).
+		WithMaxConcurrency(16).WithMaxActiveTransactions(64).
+		WithFileSize(1 << 16).WithEmbeddedValues(cs.Embedded).
+		WithMultiIndexing(multi)
+	io := o.IndexOpts.
+		WithMaxBulkSize(cs.Bulk).WithAdaptiveBulkSize(cs.Adaptive).WithBulkPreparationTimeout(2 * time.Millisecond).
+		WithFlushThld(cs.FlushThld).WithSyncThld(cs.SyncThld).
+		WithMaxNodeSize(cs.NodeSize).WithCacheSize(cs.CacheSize).
+		WithMaxBufferedDataSize(cs.MaxBuf).WithMaxGlobalBufferedDataSize(cs.MaxGlobalBuf).
+		WithCompactionThld(1).WithRenewSnapRootAfter(0).WithCleanupPercentage(10)
+	return o.WithIndexOptions(io)
+}
+
+var maintOps = []string{"compact", "flush", "mixed", "snapshots", "none"}
+
+// cases that never compact
+var quietOps = []string{"none", "flush", "snapshots"}
+
+type recent struct {
+	id  uint64
+	idx int
+	key []byte
+}
+
+// obs is one read issued while the writers were running.
+type obs struct {
+	idx    int
+	op     string
+	key    []byte
+	neq    []byte
+	q      readerSpec
+	lo, hi uint64 // waited for lo before the call; committed frontier hi after it returned
+	snapTs uint64
+	got    out
+	maint  string
+}
+
+type run struct {
+	c     *fw.Ctx
+	cs    caseSpec
+	specs []idxSpec
+	dir   string
+	st    *store.ImmuStore
+	led   *ledger.Ledger
+	w     *world
+
+	keySeq atomic.Uint64
+	// a compaction (which ends with the index being closed, reopened and its indexing goroutine restarted)
+	// completed earlier in this case
+	compacted atomic.Bool
+	abort     atomic.Bool
+	why       atomic.Value
+
+	mu     sync.Mutex
+	recent []recent
+	obs    []obs
+}
+
+func (rn *run) rand(stream string) *rand.Rand {
+	return fw.NewRand(rn.c.Seed, "c04/"+rn.cs.Name+"/"+stream)
+}
+
+func (rn *run) bulkClass() string { return fmt.Sprintf("bulk=%d", rn.cs.Bulk) }
+
+func (rn *run) viol(sig, detail string) {
+	b, _ := json.MarshalIndent(rn.cs, "", " ")
+	rn.c.Violation(sig, detail, map[string][]byte{"case.json": b})
+}
+
+func (rn *run) giveUp(why string) {
+	if rn.abort.CompareAndSwap(false, true) {
+		rn.why.Store(why)
+		if os.Getenv("VERIF_C04_DEBUG") != "" {
+			buf := make([]byte, 1<<20)
+			buf = buf[:runtime.Stack(buf, true)]
+			os.WriteFile("/var/tmp/c04-stacks-"+rn.cs.Name+".txt", buf, 0o644)
+		}
+	}
+}
+
+func (rn *run) open() error {
+	st, err := store.Open(rn.dir, rn.cs.options())
+	if err != nil {
+		return err
+	}
+	rn.st = st
+	multi, _ := layout(rn.cs.Layout)
+	if multi {
+		for _, s := range rn.specs {
+			if err := st.InitIndexing(s.storeSpec()); err != nil {
+				return fmt.Errorf("InitIndexing%s: %w", s, err)
+			}
+		}
+	}
+	return nil
+}
+
+// ---- workload ----
+
+var written = []string{"a/", "r/", "z/"}
+
+func (rn *run) genKey(r *rand.Rand, g int) []byte {
+	p := written[r.IntN(len(written))]
+	if r.IntN(3) == 0 {
+		p = "r/"
+	}
+	// keys below "r/" are mapped to keys up to two bytes longer
+	max := rn.cs.MaxKeyLen
+	if p == "r/" {
+		max -= 2
+	}
+	switch r.IntN(10) {
+	case 0, 1, 2, 3, 4:
+		return []byte(fmt.Sprintf("%sk%d", p, r.IntN(10)))
+	case 5, 6:
+		// long shared prefix
+		return []byte(p + strings.Repeat("p", 24) + fmt.Sprint(r.IntN(6)))
+	case 7:
+		// keys of maximal length
+		k := p + fmt.Sprint(r.IntN(4))
+		return []byte(k + strings.Repeat("m", max-len(k)))
+	case 8:
+		return []byte(fmt.Sprintf("%su%d-%d", p, g, rn.keySeq.Add(1)))
+	}
+	return []byte(fmt.Sprintf("%sk%d%c", p, r.IntN(10), 'a'+r.IntN(3)))
+}
+
+func genValue(r *rand.Rand) []byte {
+	n := []int{0, 1, 3, 20, 100, maxValueLen}[r.IntN(6)]
+	b := make([]byte, n)
+	for i := range b {
+		b[i] = byte(r.IntN(256))
+	}
+	if n > 0 {
+		b[0] = byte(r.IntN(6))
+	}
+	return b
+}
+
+func genMD(r *rand.Rand) int {
+	switch x := r.IntN(100); {
+	case x < 68:
+		return mdNone
+	case x < 77:
+		return mdDeleted
+	case x < 83:
+		return mdExp2001
+	case x < 90:
+		return mdExp2100
+	case x < 95:
+		return mdNonIdx
+	}
+	return mdExp2100Del
+}
+
+type genEntry struct {
+	key, value []byte
+	kind       int
+}
+
+func (rn *run) genTx(r *rand.Rand, g int) []genEntry {
+	n := 1 + r.IntN(2)
+	switch r.IntN(8) {
+	case 0:
+		n = rn.cs.MaxTxEntries
+	case 1, 2:
+		n = 1 + r.IntN(rn.cs.MaxTxEntries)
+	}
+	seen := map[string]bool{}
+	var es []genEntry
+	for tries := 0; len(es) < n && tries < 4*n+8; tries++ {
+		k := rn.genKey(r, g)
+		if seen[string(k)] {
+			continue
+		}
+		seen[string(k)] = true
+		es = append(es, genEntry{k, genValue(r), genMD(r)})
+	}
+	return es
+}
+
+func (rn *run) writer(round, g int, left *atomic.Int64, wg *sync.WaitGroup) {
+	defer wg.Done()
+	r := rn.rand(fmt.Sprintf("round%d/writer%d", round, g))
+	for left.Add(-1) >= 0 && !rn.abort.Load() {
+		es := rn.genTx(r, g)
+		ctx, cancel := context.WithTimeout(context.Background(), opTimeout)
+		tx, err := rn.st.NewWriteOnlyTx(ctx)
+		if err != nil {
+			cancel()
+			rn.giveUp("NewWriteOnlyTx: " + err.Error())
+			return
+		}
+		les := make([]ledger.Entry, len(es))
+		for i, e := range es {
+			if err = tx.Set(e.key, buildMD(e.kind), e.value); err != nil {
+				break
+			}
+			les[i] = ledger.Entry{Key: e.key, Value: e.value, MD: mdRaw[e.kind]}
+		}
+		if err != nil {
+			tx.Cancel()
+			cancel()
+			rn.giveUp("Set: " + err.Error())
+			return
+		}
+		var hdr *store.TxHeader
+		if r.IntN(4) == 0 {
+			hdr, err = tx.Commit(ctx)
+		} else {
+			hdr, err = tx.AsyncCommit(ctx)
+		}
+		timedOut := errors.Is(ctx.Err(), context.DeadlineExceeded)
+		cancel()
+		if hdr != nil {
+			if e := rn.led.Ack(hdr, les); e != nil {
+				rn.giveUp("ledger: " + e.Error())
+				return
+			}
+			rn.mu.Lock()
+			for _, e := range es {
+				for i, tk := range targetsOf(rn.specs, e.key, e.value, e.kind) {
+					if tk != nil {
+						rn.recent = append(rn.recent, recent{hdr.ID, i, tk})
+					}
+				}
+			}
+			if len(rn.recent) > 64 {
+				rn.recent = rn.recent[len(rn.recent)-64:]
+			}
+			rn.mu.Unlock()
+		}
+		if err != nil {
+			rn.c.Count("commit_errors", 1)
+			if timedOut {
+				rn.giveUp(fmt.Sprintf("a commit did not return within %v", opTimeout))
+				return
+			} else if hdr == nil {
+				// whether the tx exists is unknown to the harness: the model cannot be built beyond this point
+				rn.giveUp("commit failed: " + err.Error())
+				return
+			}
+		}
+	}
+}
+
+func (rn *run) maintenance(round int, maint string, stop chan struct{}, wg *sync.WaitGroup) {
+	defer wg.Done()
+	r := rn.rand(fmt.Sprintf("round%d/maint", round))
+	for {
+		select {
+		case <-stop:
+			return
+		default:
+		}
+		op := maint
+		if maint == "mixed" {
+			op = []string{"flush", "compact", "snapshots"}[r.IntN(3)]
+		}
+		var err error
+		switch op {
+		case "flush":
+			err = rn.st.FlushIndexes(float32([]int{0, 10, 100}[r.IntN(3)]), r.IntN(2) == 0)
+		case "compact":
+			// a tree is compacted only when it has synced snapshots
+			if err = rn.st.FlushIndexes(float32([]int{0, 10}[r.IntN(2)]), true); err == nil {
+				if err = rn.st.CompactIndexes(); err == nil {
+					rn.compacted.Store(true)
+				}
+			}
+		case "snapshots":
+			ix := rn.w.idx[r.IntN(len(rn.w.idx))]
+			var s *store.Snapshot
+			if s, err = rn.st.Snapshot([]byte(ix.spec.Tgt)); err == nil {
+				time.Sleep(time.Duration(r.IntN(500)) * time.Microsecond)
+				s.Close()
+			}
+		}
+		if op != "none" {
+			rn.c.Count("maintenance_"+op, 1)
+			if err != nil {
+				e := err.Error()
+				if len(e) > 60 {
+					e = e[:60]
+				}
+				rn.c.Count("maintenance_"+op+"_error: "+e, 1)
+			}
+		}
+		time.Sleep(time.Duration(r.IntN(1500)) * time.Microsecond)
+		if op == "compact" {
+			// indexers queue behind the compaction lock when they stall on the buffered-data limit: leave them room
+			time.Sleep(time.Duration(10+r.IntN(30)) * time.Millisecond)
+		}
+	}
+}
+
+// reader issues reads while writers run; what it saw is judged after the round, when the model is complete.
+func (rn *run) reader(round, g int, maint string, stop chan struct{}, wg *sync.WaitGroup) {
+	defer wg.Done()
+	r := rn.rand(fmt.Sprintf("round%d/reader%d", round, g))
+	count := 0
+	for count < 150 {
+		select {
+		case <-stop:
+			return
+		default:
+		}
+		rn.mu.Lock()
+		var rc recent
+		if len(rn.recent) > 0 {
+			// mostly the newest acknowledged tx: its keys are the ones a receding index would miss
+			rc = rn.recent[len(rn.recent)-1-r.IntN(min(len(rn.recent), 1+r.IntN(16)))]
+		}
+		rn.mu.Unlock()
+		if rc.key == nil {
+			time.Sleep(200 * time.Microsecond)
+			continue
+		}
+		ctx, cancel := context.WithTimeout(context.Background(), opTimeout)
+		err := rn.st.WaitForIndexingUpto(ctx, rc.id)
+		timedOut := errors.Is(ctx.Err(), context.DeadlineExceeded)
+		cancel()
+		if err != nil {
+			if timedOut {
+				rn.giveUp(fmt.Sprintf("WaitForIndexingUpto(%d) did not return within %v while writers were running", rc.id, opTimeout))
+				return
+			}
+			rn.c.Count("concurrent_wait_errors", 1)
+			continue
+		}
+		o := obs{idx: rc.idx, key: rc.key, lo: rc.id, maint: maint}
+		ix := rn.w.idx[rc.idx]
+		switch r.IntN(6) {
+		case 0, 1, 2:
+			o.op = "Get"
+			ref, err := rn.st.Get(context.Background(), rc.key)
+			o.got = gotRef(rc.key, ref, err)
+		case 3:
+			o.op = "History"
+			refs, hc, err := rn.st.History(rc.key, 0, false, 1<<20)
+			o.got = gotHistory(rc.key, refs, hc, err)
+		case 4:
+			o.op = "GetWithPrefix"
+			o.key = rc.key[:len(ix.spec.Tgt)+r.IntN(len(rc.key)-len(ix.spec.Tgt)+1)]
+			if len(o.key) == 0 {
+				o.key = rc.key
+			}
+			gk, ref, err := rn.st.GetWithPrefix(context.Background(), o.key, nil)
+			o.got = gotRef(gk, ref, err)
+		case 5:
+			o.op = "SnapshotMustIncludeTxID+KeyReader"
+			ctx, cancel := context.WithTimeout(context.Background(), opTimeout)
+			snap, err := rn.st.SnapshotMustIncludeTxID(ctx, []byte(ix.spec.Tgt), rc.id)
+			cancel()
+			if err != nil {
+				rn.c.Count("concurrent_snapshot_errors", 1)
+				if strings.Contains(err.Error(), "greater than current ts") {
+					// WaitForIndexingUpto(id) had returned, and the index then reported a smaller ts
+					rn.c.Count("snapshot_ts_greater_than_current_ts", 1)
+					rn.c.Distinct(fmt.Sprintf("%s/%s/%s/SnapshotMustIncludeTxID/error-ts-greater-than-current-ts", ix.spec.kind(), rn.bulkClass(), maint))
+				}
+				continue
+			}
+			o.snapTs = snap.Ts()
+			o.q = readerSpec{ignoreDeleted: true, ignoreExpired: true}
+			o.q.rs.Prefix = rc.key[:len(ix.spec.Tgt)+r.IntN(3)]
+			o.q.rs.Desc = r.IntN(2) == 0
+			o.got = runReader(snap, o.q, 1<<20)
+			snap.Close()
+		}
+		o.hi = rn.st.LastCommittedTxID()
+		if strings.HasPrefix(o.got.cls, "other:") {
+			// an error is not a wrong answer
+			rn.c.Count("concurrent_read_errors", 1)
+			rn.c.Note(fmt.Sprintf("[%s] concurrent %s(%q): %s", rn.cs.Name, o.op, o.key, o.got.cls))
+			continue
+		}
+		rn.mu.Lock()
+		rn.obs = append(rn.obs, o)
+		rn.mu.Unlock()
+		count++
+	}
+}
+
+func (rn *run) concurrentPhase(round int, maint string) {
+	var wg, bg sync.WaitGroup
+	var left atomic.Int64
+	left.Store(int64(rn.cs.TxsPerRound))
+	stop := make(chan struct{})
+	bg.Add(1)
+	go rn.maintenance(round, maint, stop, &bg)
+	for g := 0; g < 2; g++ {
+		bg.Add(1)
+		go rn.reader(round, g, maint, stop, &bg)
+	}
+	for g := 0; g < rn.cs.Writers; g++ {
+		wg.Add(1)
+		go rn.writer(round, g, &left, &wg)
+	}
+	wg.Wait()
+	close(stop)
+	bg.Wait()
+}
+
+// quiesce waits for every index to catch up with the committed frontier and replays the ledger into the model.
+func (rn *run) quiesce(maint string) (uint64, bool) {
+	n := rn.st.LastCommittedTxID()
+	ctx, cancel := context.WithTimeout(context.Background(), opTimeout)
+	err := rn.st.WaitForIndexingUpto(ctx, n)
+	cancel()
+	if err != nil {
+		rn.giveUp(fmt.Sprintf("WaitForIndexingUpto(%d) in an idle store: %v", n, err))
+		return n, false
+	}
+	for id := rn.w.applied + 1; id <= n; id++ {
+		rec := rn.led.Get(id)
+		if rec == nil {
+			rn.giveUp(fmt.Sprintf("tx %d is committed but was never acknowledged to the harness: the model stops at %d", id, rn.w.applied))
+			return n, false
+		}
+		if err := rn.w.apply(rec); err != nil {
+			rn.giveUp("model: " + err.Error())
+			return n, false
+		}
+	}
+	if rn.led.Max() > n {
+		rn.viol("ack/beyond-committed-frontier", fmt.Sprintf("[%s] tx %d was acknowledged but the committed frontier is %d", rn.cs, rn.led.Max(), n))
+	}
+	rn.freshness(maint, n)
+	return n, true
+}
+
+// freshness probes, right after WaitForIndexingUpto(n) returned in an idle store, the keys written by the
+// newest transactions of every index. An answer that equals the log as of an earlier tx is a stale read
+// (the index is behind n although indexing was reported to have caught up). The probe is repeated, a
+// bounded number of times, until the answers are current, so that the full comparison that follows
+// describes the index and not the same lag over and over.
+func (rn *run) freshness(maint string, n uint64) {
+	for _, ix := range rn.w.idx {
+		if ix.contentBad {
+			continue
+		}
+		view := ix.m.At(n)
+		// keys whose newest version is the most recent
+		type kt struct {
+			k  []byte
+			ts uint64
+		}
+		var newest []kt
+		for _, k := range view.Keys() {
+			v, _, _ := view.Get(k)
+			newest = append(newest, kt{k, v.Ts})
+		}
+		sort.Slice(newest, func(i, j int) bool { return newest[i].ts > newest[j].ts })
+		if len(newest) > 6 {
+			newest = newest[:6]
+		}
+		reported := false
+		for attempt := 0; attempt < 3000; attempt++ {
+			behind := false
+			for _, x := range newest {
+				ref, err := rn.st.GetWithFilters(context.Background(), x.k, noFilters...)
+				got := gotRef(x.k, ref, err)
+				rn.c.Eval(1)
+				d := diff(got, expectGet(view, x.k, true))
+				if d == "" {
+					continue
+				}
+				behind = true
+				if reported {
+					break
+				}
+				for t := n; t > 0 && n-t < 300; t-- {
+					if diff(got, expectGet(ix.m.At(t-1), x.k, true)) == "" {
+						reported = true
+						sig := "index/" + maint + "/stale-read-after-wait"
+						if rn.compacted.Load() {
+							sig = "index/compaction/ts-recedes-stale-read"
+						}
+						rn.c.Distinct(fmt.Sprintf("%s/%s/%s/freshness-probe/stale", ix.spec.kind(), rn.bulkClass(), maint))
+						rn.viol(sig, fmt.Sprintf("[%s] index %s, idle store, maintenance during the round: %s: WaitForIndexingUpto(%d) returned, then GetWithFilters(%q) answered with the state of the log as of tx %d (%s): a stale read",
+							rn.cs, ix.spec, maint, n, x.k, t-1, d))
+						break
+					}
+				}
+				break
+			}
+			if !behind {
+				break
+			}
+			time.Sleep(5 * time.Millisecond)
+		}
+	}
+}
+
+func (rn *run) compareAll(label, maint string, n uint64, budget int) {
+	for _, ix := range rn.w.idx {
+		rn.compareIndex(ix, label, maint, n, budget)
+	}
+	// keys that no index covers are not found
+	multi, _ := layout(rn.cs.Layout)
+	if multi {
+		r := rn.rand("uncovered/" + label)
+		for i := 0; i < 6; i++ {
+			k := []byte(fmt.Sprintf("z/k%d", r.IntN(10)))
+			if rn.w.indexFor(k) != nil {
+				continue
+			}
+			_, err := rn.st.Get(context.Background(), k)
+			rn.c.Eval(1)
+			if c := errClass(err); c != "not-found" {
+				rn.viol("read/Get/key-outside-every-index/"+c, fmt.Sprintf("[%s] Get(%q): %v", rn.cs, k, err))
+			}
+		}
+	}
+}
+
+// expectation of a concurrent observation at instant t
+func (rn *run) expectObs(o obs, t uint64) out {
+	v := rn.w.idx[o.idx].m.At(t)
+	switch o.op {
+	case "Get":
+		return expectGet(v, o.key, false)
+	case "History":
+		return expectHistory(v, o.key, 0, false, 1<<20)
+	case "GetWithPrefix":
+		return expectGetWithPrefix(v, o.key, nil)
+	}
+	return expectReader(v, o.q)
+}
+
+func (rn *run) evalConcurrent() {
+	rn.mu.Lock()
+	all := rn.obs
+	rn.obs = nil
+	rn.mu.Unlock()
+	for _, o := range all {
+		ix := rn.w.idx[o.idx]
+		if ix.contentBad {
+			rn.c.Count("concurrent_reads_not_judged_index_content_differs", 1)
+			continue
+		}
+		if o.hi > rn.w.applied {
+			o.hi = rn.w.applied
+		}
+		rn.c.Eval(1)
+		kind := "live"
+		ok := false
+		var firstDiff string
+		if o.snapTs > 0 || o.op == "SnapshotMustIncludeTxID+KeyReader" {
+			kind = "snapshot"
+			if o.snapTs < o.lo {
+				rn.viol("read/SnapshotMustIncludeTxID/older-than-requested/during-"+o.maint,
+					fmt.Sprintf("[%s] index %s: SnapshotMustIncludeTxID(%d) returned a snapshot at ts %d", rn.cs, ix.spec, o.lo, o.snapTs))
+				continue
+			}
+			firstDiff = diff(o.got, rn.expectObs(o, o.snapTs))
+			ok = firstDiff == ""
+		} else {
+			for t := o.lo; t <= o.hi && !ok; t++ {
+				d := diff(o.got, rn.expectObs(o, t))
+				if d == "" {
+					ok = true
+				} else if firstDiff == "" {
+					firstDiff = d
+				}
+			}
+		}
+		rn.c.Distinct(fmt.Sprintf("%s/%s/%s/concurrent-%s/%s/%s", ix.spec.kind(), rn.bulkClass(), o.maint, kind, o.op, o.got.cls))
+		if ok {
+			continue
+		}
+		// does it equal an instant before the tx whose indexing had been waited for?
+		stale, isStale := uint64(0), false
+		for t := o.lo; t > 0 && o.lo-t < 300 && !isStale; t-- {
+			if diff(o.got, rn.expectObs(o, t-1)) == "" {
+				stale, isStale = t-1, true
+			}
+		}
+		detail := fmt.Sprintf("[%s] index %s, %s(%q) issued after WaitForIndexingUpto(%d) returned, committed frontier after the call %d, maintenance running: %s: the answer equals the log at no instant in [%d,%d] (at %d: %s)",
+			rn.cs, ix.spec, o.op, o.key, o.lo, o.hi, o.maint, o.lo, o.hi, o.lo, firstDiff)
+		switch {
+		case kind == "snapshot" && rn.compacted.Load():
+			rn.viol("index/compaction-restart/entries-lost", detail+fmt.Sprintf("; snapshot ts %d", o.snapTs))
+		case kind == "snapshot":
+			rn.viol("read/SnapshotMustIncludeTxID+KeyReader/differs-from-log-at-snapshot-ts/during-"+o.maint, detail+fmt.Sprintf("; snapshot ts %d", o.snapTs))
+		case isStale:
+			sig := "index/" + o.maint + "/stale-read-after-wait"
+			if rn.compacted.Load() {
+				sig = "index/compaction/ts-recedes-stale-read"
+			}
+			rn.viol(sig, detail+fmt.Sprintf("; it equals the log as of tx %d: a stale read", stale))
+		case rn.compacted.Load():
+			// e.g. a key showing only its newest version while older ones are still being re-indexed
+			rn.viol("index/compaction-restart/entries-lost", detail)
+		default:
+			rn.viol("read/concurrent-"+o.op+"/matches-no-instant/during-"+o.maint, detail)
+		}
+	}
+}
+
+func runCase(c *fw.Ctx, cs caseSpec) {
+	_, specs := layout(cs.Layout)
+	rn := &run{c: c, cs: cs, specs: specs, dir: c.Dir("c04-" + cs.Name), led: ledger.New(), w: newWorld(specs)}
+	defer os.RemoveAll(rn.dir)
+	if err := rn.open(); err != nil {
+		c.Inconclusive(fmt.Sprintf("[%s] open: %v", cs, err))
+		return
+	}
+	closed := false
+	defer func() {
+		if !closed {
+			rn.st.Close()
+		}
+	}()
+	reopens := 0
+	for round := 0; round < cs.Rounds && !rn.abort.Load(); round++ {
+		maint := maintOps[(cs.MaintBase+round)%len(maintOps)]
+		if !cs.Compaction {
+			maint = quietOps[(cs.MaintBase+round)%len(quietOps)]
+		}
+		rn.concurrentPhase(round, maint)
+		if rn.abort.Load() {
+			break
+		}
+		if round%3 == 1 {
+			// close while the indexer may still be behind: indexing resumes after the reopen
+			if !rn.reopen() {
+				closed = true
+				break
+			}
+			reopens++
+		}
+		n, ok := rn.quiesce(maint)
+		if !ok {
+			break
+		}
+		label := fmt.Sprintf("round%d", round)
+		if round%3 == 1 {
+			label += "-reopened-lagging"
+		}
+		rn.compareAll(label, maint, n, cs.Probes)
+		rn.evalConcurrent()
+		// quiescent maintenance followed by the same comparison on a smaller budget
+		var err error
+		switch round % 3 {
+		case 0:
+			if !cs.Compaction {
+				err = rn.st.FlushIndexes(10, false)
+				label, maint = label+"+quiescent-flush", "flush"
+				break
+			}
+			if err = rn.st.FlushIndexes(0, true); err == nil {
+				if err = rn.st.CompactIndexes(); err == nil {
+					rn.compacted.Store(true)
+				}
+			}
+			label, maint = label+"+quiescent-compact", "compact"
+		case 2:
+			err = rn.st.FlushIndexes(100, true)
+			label, maint = label+"+quiescent-flush", "flush"
+		}
+		if err != nil {
+			c.Count("quiescent_maintenance_errors", 1)
+		}
+		if round%3 != 1 {
+			if n, ok = rn.quiesce(maint); !ok {
+				break
+			}
+			rn.compareAll(label, maint, n, cs.Probes/4)
+		}
+		if round%2 == 0 && round < cs.Rounds-1 {
+			if !rn.reopen() {
+				closed = true
+				break
+			}
+			reopens++
+			if n, ok = rn.quiesce(maint); !ok {
+				break
+			}
+			rn.compareAll(label+"+reopen", maint, n, cs.Probes/4)
+		}
+	}
+	if !closed {
+		closed = true
+		if err := rn.st.Close(); err != nil && !errors.Is(err, store.ErrAlreadyClosed) {
+			c.Count("close_errors", 1)
+		}
+	}
+	if rn.abort.Load() {
+		why, _ := rn.why.Load().(string)
+		c.Inconclusive(fmt.Sprintf("[%s] case abandoned: %s", cs, why))
+		if os.Getenv("VERIF_C04_DEBUG") != "" {
+			if f, err := os.OpenFile("/var/tmp/c04-debug.log", os.O_APPEND|os.O_CREATE|os.O_WRONLY, 0o644); err == nil {
+				fmt.Fprintf(f, "[%s] abandoned: %s\n", cs, why)
+				f.Close()
+			}
+		}
+	}
+	keys, versions := 0, 0
+	for _, ix := range rn.w.idx {
+		keys += ix.m.Len()
+		versions += ix.m.Versions()
+	}
+	c.Count("txs_acknowledged", int64(rn.led.Len()))
+	c.Count("reopens", int64(reopens))
+	c.Sample(map[string]any{"config": cs.String(), "indexes": len(specs), "txs": rn.led.Len(), "index_keys": keys, "index_versions": versions})
+}
+
+// reopen closes the store and opens it again (false: the case cannot go on).
+func (rn *run) reopen() bool {
+	if err := rn.st.Close(); err != nil {
+		rn.viol("close/error", fmt.Sprintf("[%s] Close: %v", rn.cs, err))
+	}
+	if err := rn.open(); err != nil {
+		rn.viol("reopen/failed", fmt.Sprintf("[%s] the store does not reopen after a clean close: %v", rn.cs, err))
+		return false
+	}
+	return true
+}
+
+func init() {
+	fw.RegisterIsolated("c04-config", func(c *fw.Ctx, data []byte) {
+		var cs caseSpec
+		if err := json.Unmarshal(data, &cs); err != nil {
+			c.Inconclusive("bad case: " + err.Error())
+			return
+		}
+		if err := kvmodel.SelfCheck(); err != nil {
+			c.Inconclusive(err.Error())
+			return
+		}
+		h := hook.Install(&hook.Config{Seed: c.Seed + int64(cs.Layout)*131, Perturb: 0.3, MaxSleep: 300 * time.Microsecond,
+			Sites: map[string]bool{"indexer.indexSince.afterReadTx": true, "indexer.indexSince.beforeInsert": true, "tbtree.flushTree": true, "store.commit.beforeWait": true}})
+		defer hook.Uninstall()
+		runCase(c, cs)
+		hm := map[string]uint64{}
+		for k, v := range h.Hits() {
+			if strings.HasPrefix(k, "indexer.") || strings.HasPrefix(k, "note:indexer.") || strings.HasPrefix(k, "tbtree.") {
+				hm[k] = v
+			}
+		}
+		c.Set("hook_site_hits", hm)
+		if h.Hits()["indexer.indexSince.afterReadTx"] == 0 && c.Counter("txs_acknowledged") > 0 {
+			c.Inconclusive("hook sites never reached: was the harness built with -tags verif?")
+		}
+	})
+}
+
+func Run(c *fw.Ctx) {
+	c.Rule = "PRNG index configurations (layout of 1-4 indexes × MaxBulkSize{1,2,3,8,64} × flush/sync thresholds, node size, cache, buffered-data limits, adaptive bulk) each run in its own process: rounds of 1-8 concurrent writers with one maintenance operation interleaved (none, flush, compact, snapshots, mixed) and hook-point perturbation of the indexer, then WaitForIndexingUpto(n) and comparison of Get, GetWithFilters, GetBetween, GetWithPrefix, History, snapshot reads and key readers over PRNG specs with one kvmodel per index replayed from the acknowledged commits (same mapper functions), also after quiescent compaction/flush and close/reopen; reads issued while writers ran must equal the model at some instant between the tx waited for and the committed frontier. An evaluation is one read compared; distinct = (index kind × bulk size × maintenance operation × reader shape × expected outcome class) observed"
+	c.Assume("the ledger of acknowledged commits is the committed log (every tx id up to the frontier was acknowledged to the harness, else the case is inconclusive)")
+	c.Assume("within one tx no two entries map to the same target key of an index (the generator guarantees it)")
+	c.Assume("GetWithPrefix answers for the smallest indexed key carrying the prefix (greater than neq); filters apply to that key only, as coded; neq is empty, the prefix or below it")
+	c.Assume("an injective index logically deletes the target key computed from the previous version of the source key when an update moves the entry (the delete marker repeats the previous value and metadata plus the deleted flag)")
+	c.Assume("expiry uses 2001-01-01 (expired) and 2100-01-01 (not expired) only")
+	r := c.Rand("c04/configs")
+	nconf := c.N(10, 150)
+	var cases [][]byte
+	for i := 0; i < nconf; i++ {
+		cs := genCase(r, i)
+		cs.Name = fmt.Sprintf("cfg%d", i)
+		cs.Rounds = c.N(3, 5)
+		cs.TxsPerRound = c.N(100, 400)
+		cs.Probes = c.N(300, 600)
+		if only := os.Getenv("VERIF_C04_ONLY"); only != "" && only != cs.Name {
+			continue // development aid: run a single configuration
+		}
+		b, _ := json.Marshal(cs)
+		cases = append(cases, b)
+	}
+	c.RunIsolated("c04-config", cases, fw.CasesOpts{Workers: c.N(10, 14), CaseTimout: 10 * time.Minute})
+}
+
+func layoutSpecs(i int) []idxSpec { _, s := layout(i); return s }
